@@ -158,10 +158,11 @@ def run(ck: Check):
     fused_part(ck)
 
 
-def chain_spec(rng, n_einsums, glb_choices=(128, 256, 512, 2048), bound_choices=(2, 4)):
+def chain_spec(rng, n_einsums, glb_choices=(128, 256, 512, 2048), bound_choices=(2, 4), ns=None, m=None):
     """(arch yaml, workload yaml, world) for a chain of matmuls T_{i+1}[m,n_{i+1}] = T_i[m,n_i] W_i[n_i,n_{i+1}]."""
-    m = rng.choice([2, 4])
-    ns = [rng.choice(list(bound_choices)) for _ in range(n_einsums + 1)]
+    m_, ns_ = rng.choice([2, 4]), [rng.choice(list(bound_choices)) for _ in range(n_einsums + 1)]
+    m = m_ if m is None else m
+    ns = ns_ if ns is None else list(ns)
     glb = rng.choice(list(glb_choices))
     e = [rng.randint(1, 8) for _ in range(5)]
     arch = """
